@@ -79,6 +79,7 @@ class Client(object):
         env = dict(os.environ)
         here = os.path.dirname(os.path.dirname(os.path.abspath(__file__)))
         env["PYTHONPATH"] = here + os.pathsep + env.get("PYTHONPATH", "")
+        self.pid = os.getpid()
         self.p = subprocess.Popen([sys.executable, "-m", "gvp.zygote"], stdin=subprocess.PIPE, stdout=subprocess.PIPE, env=env, cwd=here)
 
     def ask(self, call):
